@@ -58,6 +58,10 @@ def weight_atoms(ctx, v, scalars_terms):
     return list(found.values()), samplers
 
 
+# calls that receive `&mut acc[i]` on its way to the update (`acc.get_mut(i).ok_or(E)?`): not updates themselves
+PLUMBING = ('ok_or', 'ok_or_else', 'branch', 'from_residual', 'get_mut', 'as_mut', 'unwrap', 'expect', 'iter_mut', 'deref_mut', 'index_mut', 'as_mut_slice')
+
+
 def accumulation_events(ctx, v, terms, loop_header):
     """in-place updates, executed inside loop `loop_header` of body v, of accumulators that outlive one iteration: the
     'ev' nodes of the outermost `mut` terms found top-down in the given (gate argument) terms.  Updates of per-iteration
@@ -83,6 +87,8 @@ def accumulation_events(ctx, v, terms, loop_header):
         if t.tag == 'mut':
             visit(t[1])
             for e in t[2]:
+                if e.tag == 'ev' and e[1] == 'call' and e[2].split('::')[-1] in PLUMBING:
+                    continue                # handed a reference to (an element of) the accumulator, writes nothing
                 if e.tag == 'ev' and in_loop(e):
                     out[e.id] = e           # root-level accumulation: do not look inside its value
                 else:
